@@ -36,7 +36,10 @@ CHECKS = [
                     'file-system event, complete per history), per torn write/copy cut and per sampled I/O-error placement '
                     '(with retry), with and without a cross-device temp dir. Oracle: WriterModel on the directory tree '
                     '(I1 deferral, I2 exact final content and first-free backup, I3 nothing pre-existing lost after any '
-                    'interruption, I4 after retry).',
+                    'interruption, I4 after retry). Second layer: simulated martinize2 processes (real entry()) in a working directory '
+                    'with pre-existing outputs, real and injected warnings, generated -maxwarn lists and crashes / I/O errors during the '
+                    'CLI\'s own finalisation: nothing is written before the gate, no finalisation and non-zero exit when warnings are '
+                    'left, backups and contents exact otherwise.',
             'design_ref': 'DESIGN.md 4/C07, appendix A',
         },
         'level_note': 'Crash = process death at a syscall boundary (exception from an audit hook), not power loss; thread '
@@ -77,12 +80,55 @@ CHECKS = [
                     '(sparse/negative/unordered keys after merges and removals, atom ids absent/permuted/partial, guards, groups, '
                     'versions, impropers, virtual_sitesn) may be written; the text is read back by an independent tokenizer and '
                     'compared field by field with a snapshot of the object in memory (atoms 1..N in atom-id order, every interaction '
-                    'as a multiset of (section, guard, atom indices, parameters)).',
+                    'as a multiset of (section, guard, atom indices, parameters)). Second layer: every write_molecule_itp call made by '
+                    'simulated martinize2 runs is intercepted with a snapshot of its argument and checked the same way.',
             'design_ref': 'DESIGN.md 4/C02, appendix C',
         },
         'level_note': 'States are reached by sampled histories; atoms with a mass but no charge are ambiguous in the format and '
                       'their charge/mass columns are not compared. Trusted: the 150-line reader/comparison in sim/vsim/itpcheck.py.',
         'technique': 'deterministic simulation: writer observed on history-produced states, independent reader as oracle',
+    },
+    {
+        'property_id': 'C08',
+        'quick_cmd': './check C08 --tier quick',
+        'thorough_cmd': './check C08 --tier thorough',
+        'evidence_file': 'evidence/C08.json',
+        'replay_cmd_template': './check C08 --replay {path}',
+        'engine': 'vsim',
+        'level_claimed': {
+            'category': 'exploration',
+            'text': 'The accounting is checked where it acts: in simulated martinize2 processes whose log history (real warnings '
+                    'provoked by the derived input plus records injected by the simulator at pipeline stage boundaries) is recorded '
+                    'independently and whose -maxwarn list is generated (numbers, names, name:count, repeats, negatives, absent types). '
+                    'The statement\'s formula R over the recorded history must equal the value the real code computes at the gate, the '
+                    'count it prints, and the gate decision (exit status / finalisation). A counter-only mode replays 150-400 further '
+                    'generated histories per run into the real CountingHandler through the real adapters (reported separately).',
+            'design_ref': 'DESIGN.md 4/C08',
+        },
+        'level_note': 'Histories and specifications are sampled. A type both waived by name and limited by number is generated but '
+                      'not compared (left unspecified by the statement). Trusted: the 25-line reference formula in sim/vsim/peval.py.',
+        'technique': 'deterministic simulation: simulated CLI processes with injected log-record histories, reference-formula oracle at the output gate',
+    },
+    {
+        'property_id': 'C03',
+        'quick_cmd': './check C03 --tier quick',
+        'thorough_cmd': './check C03 --tier thorough',
+        'evidence_file': 'evidence/C03.json',
+        'replay_cmd_template': './check C03 --replay {path}',
+        'engine': 'vsim',
+        'level_claimed': {
+            'category': 'exploration',
+            'text': 'History check over the files a simulated martinize2 run leaves behind: multi-chain inputs with identical chains '
+                    'adjacent and interleaved, exact and noisy copies, under -sep/-merge/-elastic/-resid/-name/-go option mixes and '
+                    'simulator-owned hash seed, enumeration order and RNG. After finalisation the -x PDB, every *.itp and the .top are '
+                    'parsed by independent readers: k-th coordinate record == k-th [atoms] line of the type named for that molecule, '
+                    '[molecules] in coordinate order with correct counts, every type file included exactly once and present, and the '
+                    'ITP text each molecule of a shared type would produce at write time is identical.',
+            'design_ref': 'DESIGN.md 4/C03, appendix C',
+        },
+        'level_note': 'Inputs and option sets are sampled from derived structures of 1-4 chains of 2-12 residues. Residue numbers are '
+                      'compared modulo the PDB column width, names truncated to the column width.',
+        'technique': 'deterministic simulation: simulated CLI runs, cross-artefact agreement of the files on disk checked by independent readers',
     },
 ]
 
